@@ -97,7 +97,7 @@ def data_stmt(draw):
     if k == 2:
         return ".dc32 " + ", ".join("0x%x" % draw(_st.integers(0, (1 << 32) - 1)) for _ in range(draw(_st.integers(1, 3))))
     if k == 3:
-        return ".ascii \"%s\"" % draw(_st.text(alphabet="abcdefXYZ 0123", min_size=1, max_size=10))
+        return ".ascii \"%s\"" % draw(_st.text(alphabet="abcdefXYZ 0123\t", min_size=1, max_size=10))
     if k == 4:
         return ".dc64 0x%x" % draw(_st.integers(0, (1 << 64) - 1))
     return ".db %d" % draw(_st.integers(0, 255))
@@ -108,6 +108,9 @@ def structured_program(draw, pools, cpus=None, align_data=True, repeats=True):
     cpu = draw(_st.sampled_from([c for c in (cpus or GEN_CPUS) if pools.get(c)]))
     pool = pools[cpu]
     p = Prog(cpu)
+    if align_data is None:
+        align_data = draw(_st.integers(0, 3)) != 0      # sometimes code follows odd-length data unaligned
+    al = ["  .align 64"] if align_data else []
     p.add(".%s" % CPU_FILES.get(cpu, cpu), "header")
     if draw(_st.booleans()):
         p.add(".org 0x%x" % draw(_st.sampled_from([0x0, 0x100, 0x200, 0x1000, 0x8000])), "header")
@@ -121,7 +124,7 @@ def structured_program(draw, pools, cpus=None, align_data=True, repeats=True):
         for _ in range(k):
             if draw(_st.integers(0, 3)) == 0:
                 out.append("  " + draw(data_stmt()))
-                out.append("  .align 64")
+                out.extend(al)
             else:
                 out.append("  " + draw(_st.sampled_from(pool)))
         return out
@@ -132,7 +135,8 @@ def structured_program(draw, pools, cpus=None, align_data=True, repeats=True):
             p.add("  " + draw(_st.sampled_from(pool)), "top")
         elif c == 5:
             p.add("  " + draw(data_stmt()), "top")
-            p.add("  .align 64", "top")
+            for a_ in al:
+                p.add(a_, "top")
         elif c == 6:
             p.add("lbl_%d:" % nlab, "top")
             nlab += 1
@@ -143,7 +147,9 @@ def structured_program(draw, pools, cpus=None, align_data=True, repeats=True):
             nmac += 1
             p.add(".macro %s(pa)" % name, "macrodef")
             p.add("  .db pa, pa + 1", "macro:" + name)
-            p.add("  .align 64", "macro:" + name)
+            p.add("  .db pa", "macro:" + name)
+            for a_ in al:
+                p.add(a_, "macro:" + name)
             for t in body("macro", draw(_st.integers(0, 2))):
                 p.add(t, "macro:" + name)
             p.add(".endm", "macrodef")
